@@ -973,7 +973,22 @@ func genStream(r *Rand, g GenCfg) Plan {
 			}
 		}
 		p.Perm = r.Perm(n)
-		if uniform || n <= 1 {
+		bigEntry := false
+		if n >= 1 && g.Index%8 == 5 {
+			// one entry larger than 4 KiB (a section that is written piecewise rather than at once),
+			// alone in its container so that the writer's map order cannot move byte counts
+			bigEntry = true
+			ts := uniformDlgSpec(0)
+			ts.Dlg.Meta = append(ts.Dlg.Meta, MetaSpec{Key: "blob", V: ptr(vBytes(r.Bytes(Pick(r, []int{4200, 6000, 9000}))))})
+			p.Cast = nil
+			for i := 0; i < 8; i++ {
+				p.Cast = append(p.Cast, Principal{"ed25519", i})
+			}
+			p.Tokens = []TokSpec{ts}
+			p.Perm = r.Perm(1)
+			n = 1
+		}
+		if uniform || n <= 1 || bigEntry {
 			p.Steps = append(p.Steps, SStep{Op: "every_write", Hi: -1})
 		}
 	} else {
